@@ -1,0 +1,26 @@
+//go:build verif
+
+package feeder
+
+// Verification hooks (build tag verif): they only export what the verification harness in /verif needs
+// to drive; nothing here is compiled into the normal build.
+
+import (
+	"github.com/cometbft/cometbft/libs/log"
+
+	"github.com/settlus/chain/tools/interop-node/subscriber"
+)
+
+// NewVerifFeeder builds a Feeder over the given subscribers without a node client.
+func NewVerifFeeder(subscribers []subscriber.Subscriber) *Feeder {
+	subscribersMap := make(map[string]subscriber.Subscriber)
+	for _, cc := range subscribers {
+		subscribersMap[cc.Id()] = cc
+	}
+	return &Feeder{logger: log.NewNopLogger(), subscribers: subscribersMap}
+}
+
+// VerifGatherNftOwnerDataString exposes the unexported entry formatter.
+func (feeder *Feeder) VerifGatherNftOwnerDataString(nftIds []string, timestamp uint64) ([]string, error) {
+	return feeder.gatherNftOwnerDataString(nftIds, timestamp)
+}
